@@ -548,5 +548,84 @@ func main() {
 	r.RequireAtLeast("revocation-passed", 100)
 	r.RequireAtLeast("revocation-failed", 100)
 	r.RequireAtLeast("revoked-vectors", 100)
+	countersigned(r)
 	r.Finish()
+}
+
+// countersigned: notary.x509 signatures that carry a genuine RFC 3161 countersignature, over a chain that is valid today
+// and over one whose leaf has run out since (the countersignature keeps the signature verifiable). Revocation checking
+// is performed all the same: the validator is consulted once, without a signing time (the stamped time is the TSA's word,
+// not an authentic signing time of this scheme), and its verdict decides as it does without a countersignature.
+func countersigned(r *lib.Run) {
+	defer func() {
+		if p := recover(); p != nil {
+			r.Violation(map[string]string{"kind": "panic", "phase": "countersigned"}, fmt.Sprintf("the library panicked: %v", p), nil)
+		}
+	}()
+	ctx := context.Background()
+	now := time.Now()
+	day := 24 * time.Hour
+	root := lib.Mint(nil, lib.CertSpec{CN: "c05-cs-root", Kind: "ca", KeyIdx: 7})
+	tsaRoot := lib.Mint(nil, lib.CertSpec{CN: "c05-cs-tsa-root", Kind: "ca", KeyIdx: 6})
+	tsaLeaf := lib.Mint(tsaRoot, lib.CertSpec{CN: "c05-cs-tsa", Kind: "tsa", KeyIdx: 2})
+	desc := lib.Desc(ocispec.MediaTypeImageManifest, []byte("c05 countersigned"))
+	for _, expired := range []bool{false, true} {
+		spec := lib.CertSpec{CN: fmt.Sprintf("c05-cs-leaf-expired-%v", expired), Kind: "codesign", KeyIdx: 0, NotBefore: now.Add(-100 * day)}
+		if expired {
+			spec.NotAfter = now.Add(-5 * day)
+		}
+		leaf := lib.Mint(root, spec)
+		for _, format := range lib.Formats {
+			raw := lib.MustCoreSign(lib.SignSpec{Format: format, Payload: lib.Payload(desc), Signer: leaf, SigningTime: now.Add(-20 * day)})
+			sigVal, alg := lib.SigValue(format, raw)
+			stamped := lib.AttachToken(format, raw, (&lib.TSA{Key: tsaLeaf.Key, Chain: tsaLeaf.Chain()}).Token(lib.TokenSpec{Message: sigVal, Hash: alg.Hash(), GenTime: now.Add(-20 * day), AccuracyS: 1}))
+			for _, status := range []result.Result{result.ResultOK, result.ResultRevoked, result.ResultUnknown} {
+				for _, level := range []string{"strict", "permissive"} {
+					for _, legacy := range []bool{false, true} {
+						rv := &vecRev{vec: []result.Result{status, result.ResultOK}}
+						sv := trustpolicy.SignatureVerification{VerificationLevel: level, VerifyTimestamp: []trustpolicy.TimestampOption{trustpolicy.OptionAlways, trustpolicy.OptionAfterCertExpiry}[len(format)%2]}
+						opts := verifier.VerifierOptions{OCITrustPolicy: lib.OCIPolicy(sv, []string{"ca:x", "tsa:t"}, []string{"*"}), RevocationTimestampingValidator: lib.OKRev{}}
+						if legacy {
+							opts.RevocationClient = legacyClient{rv}
+						} else {
+							opts.RevocationCodeSigningValidator = rv
+						}
+						v, err := verifier.NewVerifierWithOptions(lib.NewMemTS().Put("ca:x", root.Cert).Put("tsa:t", tsaRoot.Cert), opts)
+						if err != nil {
+							panic(err)
+						}
+						_, verr := v.Verify(ctx, desc, stamped, notation.VerifierVerifyOptions{ArtifactReference: "r.io/a@" + desc.Digest.String(), SignatureMediaType: format})
+						id := fmt.Sprintf("countersigned|%s|leaf-expired=%v|%v|%s|legacy=%v", format, expired, status, level, legacy)
+						r.Eval(id)
+						r.Event("countersigned-signatures")
+						sigm := func(kind string) map[string]string {
+							return map[string]string{"kind": kind, "phase": "countersigned", "leaf_expired": fmt.Sprint(expired)}
+						}
+						wit := map[string]any{"case": id, "error": fmt.Sprint(verr), "validator_calls": rv.calls, "signing_time_given": rv.st}
+						if rv.calls != 1 {
+							r.Violation(sigm("validator-calls"), fmt.Sprintf("%s: the revocation validator was consulted %d times (the level does not skip revocation, no plugin owns it)", id, rv.calls), wit)
+							continue
+						}
+						if !rv.st.IsZero() {
+							r.Violation(sigm("validator-signing-time"), fmt.Sprintf("%s: the validator received the signing time %v for a notary.x509 signature (the time a TSA stamped is not an authentic signing time of this scheme)", id, rv.st), wit)
+						}
+						mustFail := status != result.ResultOK && level == "strict"
+						if mustFail && verr == nil {
+							r.Violation(sigm("aggregation"), fmt.Sprintf("%s: verification succeeded although the leaf is reported %v and revocation is enforced", id, status), wit)
+						}
+						if status == result.ResultOK && verr != nil {
+							r.Event("completeness:countersigned-ok-chain-rejected")
+						}
+					}
+				}
+			}
+		}
+	}
+}
+
+// legacyClient: the deprecated client interface over the same script.
+type legacyClient struct{ rv *vecRev }
+
+func (l legacyClient) Validate(certChain []*x509.Certificate, signingTime time.Time) ([]*result.CertRevocationResult, error) {
+	return l.rv.ValidateContext(context.Background(), revocation.ValidateContextOptions{CertChain: certChain, AuthenticSigningTime: signingTime})
 }
